@@ -25,23 +25,74 @@ From BP Require gen.Tables gen.C19Tables.
 Inductive cclass := Upper | Lower | Digit | Sym.
 
 Definition classify (b : byte) : cclass :=
-  let n := Byte.to_N b in
-  if ((65 <=? n) && (n <=? 90))%N then Upper
-  else if ((97 <=? n) && (n <=? 122))%N then Lower
-  else if ((48 <=? n) && (n <=? 57))%N then Digit
-  else Sym.
+  match b with
+  | x41 | x42 | x43 | x44 | x45 | x46 | x47 | x48 | x49 | x4a | x4b | x4c | x4d | x4e | x4f | x50 | x51 | x52 | x53 | x54 | x55 | x56 | x57 | x58 | x59 | x5a => Upper
+  | x61 | x62 | x63 | x64 | x65 | x66 | x67 | x68 | x69 | x6a | x6b | x6c | x6d | x6e | x6f | x70 | x71 | x72 | x73 | x74 | x75 | x76 | x77 | x78 | x79 | x7a => Lower
+  | x30 | x31 | x32 | x33 | x34 | x35 | x36 | x37 | x38 | x39 => Digit
+  | _ => Sym
+  end.
 
 Definition us : byte := x5f.   (* "_" *)
 
 (* str.lower() / str.upper() on one ASCII character *)
 Definition to_lower (b : byte) : byte :=
-  match classify b with
-  | Upper => match Byte.of_N (Byte.to_N b + 32) with Some c => c | None => b end
+  match b with
+  | x41 => x61
+  | x42 => x62
+  | x43 => x63
+  | x44 => x64
+  | x45 => x65
+  | x46 => x66
+  | x47 => x67
+  | x48 => x68
+  | x49 => x69
+  | x4a => x6a
+  | x4b => x6b
+  | x4c => x6c
+  | x4d => x6d
+  | x4e => x6e
+  | x4f => x6f
+  | x50 => x70
+  | x51 => x71
+  | x52 => x72
+  | x53 => x73
+  | x54 => x74
+  | x55 => x75
+  | x56 => x76
+  | x57 => x77
+  | x58 => x78
+  | x59 => x79
+  | x5a => x7a
   | _ => b
   end.
 Definition to_upper (b : byte) : byte :=
-  match classify b with
-  | Lower => match Byte.of_N (Byte.to_N b - 32) with Some c => c | None => b end
+  match b with
+  | x61 => x41
+  | x62 => x42
+  | x63 => x43
+  | x64 => x44
+  | x65 => x45
+  | x66 => x46
+  | x67 => x47
+  | x68 => x48
+  | x69 => x49
+  | x6a => x4a
+  | x6b => x4b
+  | x6c => x4c
+  | x6d => x4d
+  | x6e => x4e
+  | x6f => x4f
+  | x70 => x50
+  | x71 => x51
+  | x72 => x52
+  | x73 => x53
+  | x74 => x54
+  | x75 => x55
+  | x76 => x56
+  | x77 => x57
+  | x78 => x58
+  | x79 => x59
+  | x7a => x5a
   | _ => b
   end.
 Definition lower (w : list byte) : list byte := map to_lower w.
@@ -122,13 +173,23 @@ Definition lowercase_first (s : list byte) : list byte :=
   match s with [] => [] | c :: r => to_lower c :: r end.
 Definition camel_case (s : list byte) : list byte := lowercase_first (pascal_case s).
 
+(* string equality (through the character codes: cheaper under vm_compute than Byte.eqb's bit tuples) *)
+Definition byte_eqb (a b : byte) : bool := N.eqb (Byte.to_N a) (Byte.to_N b).
+Fixpoint str_eqb (a b : list byte) : bool :=
+  match a, b with
+  | [], [] => true
+  | x :: a', y :: b' => byte_eqb x y && str_eqb a' b'
+  | _, _ => false
+  end.
+Definition is_us (b : byte) : bool := match b with x5f => true | _ => false end.
+
 (* ---- sanitize_name ---- *)
-Definition is_keyword (x : list byte) : bool := existsb (bytes_eqb x) Tables.kwlist.
+Definition is_keyword (x : list byte) : bool := existsb (str_eqb x) Tables.kwlist.
 
 Definition ident_start (b : byte) : bool :=
-  match classify b with Upper | Lower => true | Digit => false | Sym => Byte.eqb b us end.
+  match classify b with Upper | Lower => true | Digit => false | Sym => is_us b end.
 Definition ident_char (b : byte) : bool :=
-  match classify b with Upper | Lower | Digit => true | Sym => Byte.eqb b us end.
+  match classify b with Upper | Lower | Digit => true | Sym => is_us b end.
 (* str.isidentifier() on an ASCII string *)
 Definition is_identifier (x : list byte) : bool :=
   match x with [] => false | c :: r => ident_start c && forallb ident_char r end.
@@ -148,7 +209,7 @@ Definition pythonize_method_name := safe_snake_case.
 Fixpoint is_prefix (p l : list byte) : bool :=
   match p, l with
   | [], _ => true
-  | a :: p', b :: l' => Byte.eqb a b && is_prefix p' l'
+  | a :: p', b :: l' => byte_eqb a b && is_prefix p' l'
   | _ :: _, [] => false
   end.
 (* name[name.find(sub) + len(sub):] if sub occurs in name (first occurrence) *)
@@ -157,7 +218,7 @@ Fixpoint after_first (sub l : list byte) : option (list byte) :=
   else match l with [] => None | _ :: r => after_first sub r end.
 
 Fixpoint lstrip_us (l : list byte) : list byte :=
-  match l with [] => [] | c :: r => if Byte.eqb c us then lstrip_us r else l end.
+  match l with [] => [] | c :: r => if is_us c then lstrip_us r else l end.
 (* str.rstrip("_") *)
 Definition rstrip_us (l : list byte) : list byte := rev (lstrip_us (rev l)).
 Definition strip_us (l : list byte) : list byte := rstrip_us (lstrip_us l).
@@ -172,7 +233,7 @@ Definition snake_key (f : list byte) : list byte := rstrip_us (snake_case f).
 
 (* ---- from_dict / from_pydict: which field a key addresses ----
    The pinned code looks up safe_snake_case(key) only. *)
-Definition mem_bytes (x : list byte) (l : list (list byte)) : bool := existsb (bytes_eqb x) l.
+Definition mem_bytes (x : list byte) (l : list (list byte)) : bool := existsb (str_eqb x) l.
 Definition field_for_key_pinned (fields : list (list byte)) (key : list byte) : option (list byte) :=
   let f := safe_snake_case key in if mem_bytes f fields then Some f else None.
 
@@ -185,7 +246,7 @@ Fixpoint assoc_last (k : list byte) (tbl : list (list byte * list byte)) : optio
   | [] => None
   | (k', v) :: r => match assoc_last k r with
                     | Some x => Some x
-                    | None => if bytes_eqb k k' then Some v else None
+                    | None => if str_eqb k k' then Some v else None
                     end
   end.
 Definition key_table (fields : list (list byte)) : list (list byte * list byte) :=
@@ -209,27 +270,24 @@ Definition single (w : list byte) : bool := match w with [_] => true | _ => fals
    before it: address_line_1 -> addressLine1 -> address_line1), and a one-letter word that is not the
    first is not followed by a one-letter word or a letter+digits word (they would fuse into one
    upper-case word: x_y_z -> xYZ -> x_yz) *)
-Fixpoint key_safe_tail (ws : list (list byte)) : bool :=
+Fixpoint key_safe_from (prev_single : bool) (ws : list (list byte)) : bool :=
   match ws with
   | [] => true
-  | w :: r => negb (starts_digit w)
-              && (match r with [] => true | n :: _ => negb (single w) || second_lower n end)
-              && key_safe_tail r
+  | w :: r => negb (starts_digit w) && (negb prev_single || second_lower w) && key_safe_from (single w) r
   end.
 Definition key_safe_ws (ws : list (list byte)) : bool :=
-  match ws with [] => true | _ :: r => key_safe_tail r end.
+  match ws with [] => true | _ :: r => key_safe_from false r end.
 Definition key_safe (s : list byte) : bool := key_safe_ws (map lower (words s)).
 
 (* PascalCase: a one-letter word is not directly followed by a word that starts with a letter and
    has no lower-case second character  (a_b -> AB -> Ab) *)
-Fixpoint pascal_stable_ws (ws : list (list byte)) : bool :=
+Fixpoint pascal_stable_from (prev_single_letter : bool) (ws : list (list byte)) : bool :=
   match ws with
   | [] => true
-  | w :: r => (match r with
-               | [] => true
-               | n :: _ => negb (single w) || starts_digit w || starts_digit n || second_lower n
-               end) && pascal_stable_ws r
+  | w :: r => (negb prev_single_letter || starts_digit w || second_lower w)
+              && pascal_stable_from (single w && negb (starts_digit w)) r
   end.
+Definition pascal_stable_ws (ws : list (list byte)) : bool := pascal_stable_from false ws.
 Definition pascal_stable (s : list byte) : bool := pascal_stable_ws (map lower (words s)).
 
 (* class names: pythonize_class_name does not sanitise.  The first word must start with a letter,
@@ -279,7 +337,6 @@ Definition mix (h : hsum) (x : Z) : hsum := let '(a, b) := h in let a' := a + x 
 Definition mix_bytes (h : hsum) (bs : list byte) : hsum :=
   fold_left (fun h b => mix h (Z_of_byte b)) bs (mix h (Zlength bs)).
 Definition mix_bool (h : hsum) (b : bool) : hsum := mix h (if b then 1 else 0).
-Definition beqb (a b : list byte) : bool := bytes_eqb a b.
 
 (* everything the property looks at, for one string *)
 Definition code (s : list byte) (h : hsum) : hsum :=
@@ -298,8 +355,28 @@ Definition code (s : list byte) (h : hsum) : hsum :=
   let h := mix_bool h (pascal_stable s) in
   mix_bool (mix_bool h (is_identifier p && negb (is_keyword p))) (class_name_ok s).
 
+(* the same with [words s] computed once (convertible to [code]: Proofs/CasingP.v, code_fast_eq) *)
+Definition code_fast (s : list byte) (h : hsum) : hsum :=
+  let ws := words s in
+  let lws := map lower ws in
+  let sn := join [us] lws in
+  let f := sanitize_name sn in
+  let p := concat (map capitalize ws) in
+  let h := mix_bytes h sn in
+  let h := mix_bytes h f in
+  let h := mix_bytes h p in
+  let h := mix_bytes h (lowercase_first p) in
+  let h := mix_bytes h (sanitize_name s) in
+  let h := mix_bytes h (camel_key f) in
+  let h := mix_bytes h (snake_key f) in
+  let h := mix_bool h (key_safe_ws lws) in
+  let h := mix_bool h (pascal_stable_ws lws) in
+  mix_bool (mix_bool h (is_identifier p && negb (is_keyword p)))
+           (match ws with [] => false | w :: _ => negb (starts_digit w) end
+            && negb (mem_bytes sn (map lower capital_keywords))).
+
 Fixpoint sweep_go (alphabet : list byte) (n : nat) (s : list byte) (h : hsum) : hsum :=
-  let h := code s h in
+  let h := code_fast s h in
   match n with
   | O => h
   | S n' => fold_left (fun h c => sweep_go alphabet n' (s ++ [c]) h) alphabet h
